@@ -56,6 +56,18 @@ class Ctx(object):
     def count_path(self, sig):
         self.nontrivial.add(sig)
 
+    def count_actions(self, names, prefix=""):
+        for a in names:
+            k = prefix + a
+            self.actions[k] = self.actions.get(k, 0) + 1
+
+    def require_actions(self, names, prefix=""):
+        """vacuity guard: every listed spec action must have been exercised by an exported behaviour"""
+        from common import MachineryError
+        missing = [prefix + a for a in names if self.actions.get(prefix + a, 0) == 0]
+        if missing:
+            raise MachineryError("vacuous run: specification actions never taken: %s" % missing)
+
     # ---------------- verdicts
     def mismatch(self, checker, record, text, observed=None, expected=None):
         """a disagreement between code and spec: known finding or violation"""
